@@ -68,24 +68,56 @@ theorem selectArg_neg (t : Bytes) : selectArg [45 :: t] = none := by
 
 /-! ### Wake-ups never survive a request -/
 
-theorem serve_wakes (q : Quirks) (now : Nat) (wks : List Wake) :
-    ∀ (st : State) (out : List (Nat × Frame)), (serve q now st wks out).1.wakes = st.wakes := by
-  induction wks with
-  | nil => intro st out; rfl
-  | cons wk rest ih =>
-    intro st out
-    simp only [serve]
+theorem serveKey_wakes (q : Quirks) (now db : Nat) (k : Bytes) (f : Nat) :
+    ∀ (st : State), (serveKey q now db k f st).wakes = st.wakes := by
+  induction f with
+  | zero => intro st; rfl
+  | succ f ih =>
+    intro st
+    simp only [serveKey]
     split
-    · rw [ih]; rfl
-    · rw [ih]; rfl
+    · rfl
+    · split
+      · rw [ih]; rfl
+      · rfl
 
-theorem processWakes_wakes (q : Quirks) (now : Nat) (st : State) : (processWakes q now st).1.wakes = [] := by
-  unfold processWakes; rw [serve_wakes]
+theorem sweepKeys_wakes (q : Quirks) (now db : Nat) (ks : List Bytes) :
+    ∀ (st : State), (sweepKeys q now db ks st).wakes = st.wakes := by
+  induction ks with
+  | nil => intro st; rfl
+  | cons k r ih => intro st; simp only [sweepKeys]; rw [ih, serveKey_wakes]
 
-theorem processWakes_nil (q : Quirks) (now : Nat) (st : State) (h : st.wakes = []) : processWakes q now st = (st, []) := by
+theorem servePushed_wakes (q : Quirks) (now : Nat) (wks : List Wake) :
+    ∀ (st : State), (servePushed q now wks st).wakes = st.wakes := by
+  induction wks with
+  | nil => intro st; rfl
+  | cons wk r ih =>
+    intro st
+    simp only [servePushed]
+    rw [ih]
+    split
+    · exact serveKey_wakes q now _ _ _ st
+    · rfl
+
+theorem serveSwept_wakes (q : Quirks) (now : Nat) (wks : List Wake) :
+    ∀ (st : State), (serveSwept q now wks st).wakes = st.wakes := by
+  induction wks with
+  | nil => intro st; rfl
+  | cons wk r ih =>
+    intro st
+    simp only [serveSwept]
+    rw [ih]
+    split
+    · rfl
+    · exact sweepKeys_wakes q now _ _ st
+
+theorem processWakes_wakes (q : Quirks) (now : Nat) (st : State) : (processWakes q now st).wakes = [] := by
+  unfold processWakes; rw [serveSwept_wakes, servePushed_wakes]
+
+theorem processWakes_nil (q : Quirks) (now : Nat) (st : State) (h : st.wakes = []) : processWakes q now st = st := by
   unfold processWakes
   rw [h]
-  simp only [serve]
+  simp only [servePushed, serveSwept]
   cases st
   simp at h
   simp [h]
